@@ -8,14 +8,14 @@ COQ_DIRS = PC.COQ_DIRS
 RULE = ("histories of kernel events (spawn/exit->zombie/reap/PID reuse/clock steps of -100000..10^9 s) and psutil calls over PIDs "
         "{0,1,2,3,7,2^31-1}, start ticks from 21 values (bases 0..2^40, 10^12, each +0/+1/+2) with PID reuse at adjacent ticks (p=0.6), process names with 0-3 blanks/parentheses/15 bytes, thread-count changes, drawn from a weighted grammar with motifs 'clock step, "
         "boot_time(), second object for the same process, ==/hash/is_running' and 'process ends, queries, PID reused, "
-        "is_running/==/hash between old and new object'; process_iter() generators suspended before a recycled PID whose cached object is then found stale (binding of every held object checked after every event); two PIDs spawned with the same start tick, == against non-Process operands (int = pid, tuple = _ident, object(), None, str, float), psutil.Popen objects without identity later compared with the owner of their PID; objects also come from process_iter() and psutil.Popen; calls also inside oneshot() blocks. Class = most specific feature "
+        "is_running/==/hash between old and new object'; objects built while /proc/<pid>/stat is unreadable (EACCES; identity (pid, None)) with hash() before/after the file becomes readable and is_running() is called, PID reuse in between, ==/hash against fresh objects both ways; process_iter() generators suspended before a recycled PID whose cached object is then found stale (binding of every held object checked after every event); two PIDs spawned with the same start tick, == against non-Process operands (int = pid, tuple = _ident, object(), None, str, float), psutil.Popen objects without identity later compared with the owner of their PID; objects also come from process_iter() and psutil.Popen; calls also inside oneshot() blocks. Class = most specific feature "
         "reached (eq-same-pid-other-proc, isrun-reused, clock, eq-same-proc, ...). Non-trivial = some ==/hash/is_running on an "
         "object was executed; distinct = distinct canonical history.")
 TRUSTED = PC.TRUSTED
 ASSUMPTIONS = PC.ASSUMPTIONS
 EXHAUSTIVE = {}
 SPEC_KINDS = ("isrun", "eq", "hasheq", "eqother", "bind")
-N = {"quick": 1100, "thorough": 14000, "search": 2500}
+N = {"quick": 900, "thorough": 14000, "search": 2500}
 
 
 def gen_cases(rng, tier):
@@ -31,7 +31,7 @@ MANIFEST = {
             "incl. boot_time(), create_time(), process_iter(), is_running() on any object, any length, objects created at any point): "
             "a == b and hash(a) == hash(b) hold exactly when both objects were created for the same process start (same incarnation, "
             "hence same PID); hash is stable; is_running() is True exactly while that incarnation is in the process table (zombie "
-            "included) and, once False, False ever after; different PIDs never compare equal (also with equal start ticks); == against a "
+            "included) and, once False, False ever after; for EVERY history (also with unreadable stat files, objects without identity): the identity of an object never changes, hash agrees with ==, is_running() never returns to True; different PIDs never compare equal (also with equal start ticks); == against a "
             "non-Process operand is False; a psutil.Popen built for a child already gone is bound to no process and never running. The model (coq/Proc/Model.v) is tied to the code by running both on generated "
             "histories over a fake /proc whose btime line is stepped.",
     "note": "Trusted: Coq kernel + vm_compute; hand-written model coq/Proc/Model.v (tied by the correspondence run only); ghost "
